@@ -3,6 +3,7 @@ package c17
 import (
 	"context"
 	"crypto/sha256"
+	"encoding/binary"
 	"errors"
 	"fmt"
 	"os"
@@ -89,11 +90,26 @@ func (tr *trace) snapshot() []Call {
 
 var errScripted = errors.New("scripted log failure")
 
-// sctFor is the SCT log `log` hands out for submission `sub`; the timestamp encodes both so that the
-// oracle can tell which log and which submission a returned SCT really came from.
+// sctFor is the SCT log `log` hands out for submission `sub`. Its extensions field carries a stamp that
+// encodes both, so that the oracle can tell which log and which submission a returned SCT really came
+// from; its timestamp is the log's clock: the current (virtual) time plus the scripted skew.
 func sctFor(sub, log int) *ct.SignedCertificateTimestamp {
+	return sctAt(sub, log, 0)
+}
+
+func sctAt(sub, log int, skew time.Duration) *ct.SignedCertificateTimestamp {
 	id := sha256.Sum256([]byte(logURL(log)))
-	return &ct.SignedCertificateTimestamp{SCTVersion: ct.V1, LogID: ct.LogID{KeyID: id}, Timestamp: sctStamp(sub, log), Extensions: []byte{}}
+	ext := make([]byte, 8)
+	binary.BigEndian.PutUint64(ext, sctStamp(sub, log))
+	return &ct.SignedCertificateTimestamp{SCTVersion: ct.V1, LogID: ct.LogID{KeyID: id}, Timestamp: uint64(time.Now().Add(skew).UnixMilli()), Extensions: ext}
+}
+
+// stampOf reads the identifying stamp back from a returned SCT (0 when it is not there).
+func stampOf(sct *ct.SignedCertificateTimestamp) uint64 {
+	if sct == nil || len(sct.Extensions) != 8 {
+		return 0
+	}
+	return binary.BigEndian.Uint64(sct.Extensions)
 }
 
 func sctStamp(sub, log int) uint64 { return uint64(sub+1)<<16 | uint64(log) }
@@ -124,7 +140,7 @@ func serve(ctx context.Context, tr *trace, c *Call, b Beh, sub, log int) (*ct.Si
 			return nil, ctx.Err()
 		}
 		tr.end(c, "sct")
-		return sctFor(sub, log), nil
+		return sctAt(sub, log, time.Duration(b.SkewS)*time.Second), nil
 	}
 }
 
@@ -150,7 +166,7 @@ func (s *scriptedSubmitter) SubmitToLog(ctx context.Context, url string, _ []ct.
 type SCTOut struct {
 	URL   string
 	Nil   bool   // the SCT pointer was nil
-	Stamp uint64 // SCT timestamp (identifies the issuing log and submission)
+	Stamp uint64 // identifying stamp carried in the SCT's extensions (issuing log and submission)
 }
 
 // SubOut is what one caller observed.
